@@ -229,7 +229,13 @@ quantifying over the entry point (`rotate_from_angax / rotvec / euler / matrix /
 conversion refuses (magpylib's own axis check for angax; scipy's ValueError for a bad Euler sequence, an angle array whose
 shape does not fit the sequence, a zero quaternion, a matrix without positive determinant) leaves the tree as it is;
 otherwise the history step IS `rotate(rot, anchor, start)` on the same node, and `rot` is a single rotation (scalar input)
-exactly if the argument was ONE parameter set, a stack of `n` (vector input) exactly if it was `n` parameter sets. -/
+exactly if the argument was ONE parameter set, a stack of `n` (vector input) exactly if it was `n` parameter sets.
+AUDIT2: the first conjunct holds BY DEFINITION of the model (`Node.hstep` of `.rotFrom` is `Node.step (rotFromOp …)` and
+`rotFromOp` is this `match`; proof `simp only; cases <;> rfl`) — it is glue, as `rotate_from_angax_eq_rotate` says of itself.
+"The equivalent rotation" is whatever the parameter `sc` returns; the theorem cannot and does not say that it is the right one.
+What ties the statement to the code are the `rotfrom` / `angax` rows of the `path` stream (real `rotate_from_*` against
+`hstep driverScipy`).  Content of its own: the shape rule of the second conjunct, `angax_rotvec_spec`, and the
+composition order of Euler sequences (`euler_composition_order` below). -/
 theorem rotate_from_any_eq_rotate [Mul G] [Inv G] [One G] [SMul G V] [Add V] [Sub V] [Zero V]
     (sc : Scipy α G) (t : Node G V) (addr : List Nat) (e : Entry α) (anchor : Option (PathIn V)) (start : Option Int) :
     t.hstep sc (.rotFrom addr e anchor start) =
@@ -307,7 +313,66 @@ example : (Entry.euler (.arr1 [(90 : ℝ), 180]) "z" true).shape = some (false, 
 example : (Entry.euler (.arr1 [(90 : ℝ)]) "z" true).shape = some (false, 1) := by decide
 example : (Entry.euler (.arr1 [(90 : ℝ), 180]) "xx" true).shape = none := by decide
 example : (Entry.rotvec (.vector [(⟨0, 0, 90⟩ : V3 ℝ)]) true).shape = some (false, 1) := rfl
+
+/-! #### AUDIT2 additions -/
+
+/-- AUDIT2, C09(j'): **the composition order of a multi-axis Euler sequence, as the model has it** (the only place where the
+"equivalent rotation" of `rotate_from_euler` is more than scipy's opaque single-set conversion): extrinsic `'xyz'` with angles
+`(a, b, c)` is `R_z(c) · R_y(b) · R_x(a)` (later axis on the left), intrinsic `'XYZ'` is `R_x(a) · R_y(b) · R_z(c)` (later axis
+on the right) — written with the bare `Mul` / `One` the model uses, hence the trailing / leading `1`; and which sequences
+scipy's check accepts.  (Evaluated, not assumed; that scipy composes in this order is what the `euler:*` rows of the `path`
+stream compare.) -/
+theorem euler_composition_order [Mul G] [One G] (f : V3 α → G) (a b c : α) :
+    eulerOne f false [0, 1, 2] [a, b, c] =
+      f (axisRotvec 2 c) * (f (axisRotvec 1 b) * (f (axisRotvec 0 a) * 1)) ∧
+    eulerOne f true [0, 1, 2] [a, b, c] =
+      ((1 * f (axisRotvec 0 a)) * f (axisRotvec 1 b)) * f (axisRotvec 2 c) ∧
+    parseSeq "xyz" = some (false, [0, 1, 2]) ∧ parseSeq "XYZ" = some (true, [0, 1, 2]) ∧
+    parseSeq "zx" = some (false, [2, 0]) ∧ parseSeq "xx" = none ∧ parseSeq "xY" = none ∧ parseSeq "" = none ∧
+    parseSeq "xyzx" = none ∧ parseSeq "a" = none :=
+  ⟨rfl, rfl, by decide, by decide, by decide, by decide, by decide, by decide, by decide, by decide⟩
+
+/-- AUDIT2: **C09(l) on the driver's carrier** — an instance of `paths_equal_length_always` (bare operation classes, so it
+applies verbatim to `M3 Int` / `V3 Int` with any number type for the raw arguments; the driver uses `Float`) -/
+theorem paths_equal_length_always_on_driver_carrier
+    (sc : Scipy α (M3 Int)) (t : Node (M3 Int) (V3 Int)) (ops : List (HOp α (M3 Int) (V3 Int)))
+    (h : t.All Obj.Inv) (hadd : ∀ a c, HOp.add a c ∈ ops → c.All Obj.Inv) :
+    (ops.foldl (Node.hstep sc) t).All Obj.Inv :=
+  paths_equal_length_always sc t ops h hadd
 end entryPoints
+
+-- AUDIT2 non-vacuity: `entry_points_share_start_semantics` APPLIED (the `decide` examples above only evaluate `Entry.shape`):
+-- a concrete `Scipy` on the reflection group ℤˣ, `rotate_from_euler((90, 0), 'z', degrees=False)` (1-D array about one axis
+-- = vector input of 2), a per-step anchor of 3 entries, `start = -5` (reaches in front of the path of length 2): every
+-- hypothesis (`toRot = ok`, non-empty vector input, object state, anchor WF) is discharged
+section entryPointsExample
+open RotFrom
+/-- a concrete single-set conversion for the example (ℤˣ: turn by π ≙ −1) -/
+noncomputable def scEx : Scipy ℝ ℤˣ :=
+  ⟨fun v => if v.z = 0 then 1 else -1, fun _ => some 1, fun _ => 1, fun _ => none⟩
+
+example (i : Nat) :
+    ∃ shape, (Entry.euler (.arr1 [(90 : ℝ), 0]) "z" false).shape = some shape ∧ shape = (false, 2) ∧
+      rotWindow (PathIn.vector [(-1 : ℤˣ), 1]) (some (.vector [(7 : ℤ), 8, 9])) 2 (some (-5)) =
+        shapeWindow shape (some (.vector [(7 : ℤ), 8, 9])) 2 (some (-5)) ∧
+      ((applyRotation (PathIn.vector [(-1 : ℤˣ), 1]) (some (.vector [(7 : ℤ), 8, 9])) (some (-5)) none ⟨[1, 2], [1, -1]⟩).pos[i]?,
+       (applyRotation (PathIn.vector [(-1 : ℤˣ), 1]) (some (.vector [(7 : ℤ), 8, 9])) (some (-5)) none ⟨[1, 2], [1, -1]⟩).ori[i]?) =
+        rotateAt (PathIn.vector [(-1 : ℤˣ), 1]) (some (.vector [(7 : ℤ), 8, 9])) (some (-5)) [1, 2] [1, -1] i := by
+  have h : toRot scEx (Entry.euler (.arr1 [(90 : ℝ), 0]) "z" false) = .ok (.vector [(-1 : ℤˣ), 1]) := by
+    have hp : parseSeq "z" = some (false, [2]) := by decide
+    simp only [toRot, hp, eulerRows, List.length_singleton, if_true, List.map, PathIn.map, eulerOne, List.zip_cons_cons,
+      List.zip_nil_right, List.foldl_cons, List.foldl_nil, scEx, axisRotvec, Angax.toRad]
+    norm_num
+  obtain ⟨shape, hs, hw, hr⟩ := entry_points_share_start_semantics scEx _ _ h
+    (by intro n hn; have : (Entry.euler (.arr1 [(90 : ℝ), 0]) "z" false).shape = some (false, 2) := by decide
+        rw [this] at hn; cases hn; decide)
+    (some (.vector [(7 : ℤ), 8, 9])) (some (-5)) (⟨[1, 2], [1, -1]⟩ : Obj ℤˣ ℤ) (by simp) rfl
+    (by intro a ha; cases ha; simp [PathIn.WF]) i
+  have : (Entry.euler (.arr1 [(90 : ℝ), 0]) "z" false).shape = some (false, 2) := by decide
+  rw [this] at hs
+  cases hs
+  exact ⟨_, rfl, rfl, hw, hr⟩
+end entryPointsExample
 
 /-! ### on the carrier the driver computes with (AUDIT X1)
 
